@@ -495,7 +495,7 @@ Proof.
   intros Hres H E. unfold do_action in E.
   set (w1 := set_now w (w_now w + Z.max 0 (s_dur st))) in *.
   assert (H1 : GInv res run w1 m) by (apply ginv_advance; [assumption | lia]).
-  destruct (s_act st) as [|j|k| | |k].
+  destruct (s_act st) as [|j|k|rk| |k].
   - inversion E; subst. exists m. split; [reflexivity | assumption].
   - destruct (sys_timerc j w1) as [w2 r] eqn:Et. inversion E; subst w' evs raised; clear E.
     destruct (timerc_inv _ _ _ _ _ _ _ H1 Et) as (m' & Hs & Hg & _).
@@ -521,7 +521,7 @@ Proof.
 Qed.
 
 Definition flags_fixed (fl : flags) : Prop :=
-  f_guard fl = true /\ f_clear fl = true /\ f_mono fl = true /\ f_truth fl = true /\ f_resolve fl = true.
+  f_guard fl = true /\ f_clear fl = true /\ f_clear_base fl = true /\ f_mono fl = true /\ f_truth fl = true /\ f_resolve fl = true.
 
 (* what follows the callback in run: raise / cancelled meanwhile / re-arm / stop *)
 Lemma epilogue_inv res cfg fl i rid st raised w m w' evs :
@@ -529,7 +529,8 @@ Lemma epilogue_inv res cfg fl i rid st raised w m w' evs :
   GInv res (Some (i, rid)) w m -> epilogue fl cfg i st raised w = (w', evs) ->
   exists m', mon_run false res m evs = Some m' /\ GInv res None w' m'.
 Proof.
-  intros Hres (Fg & Fc & Fm & Ft & _) H E. unfold epilogue, continue_or_stop in E. rewrite Fg, Fc, Ft in E.
+  intros Hres (Fg & Fc & Fcb & Fm & Ft & _) H E. unfold epilogue, continue_or_stop in E. rewrite Fg, Fc, Fcb, Ft in E.
+  replace (match s_act st with ARaise RExc => true | _ => true end) with true in E by (destruct (s_act st) as [| | |[| |]| |]; reflexivity).
   set (b := klong_truth (s_ret st)) in *.
   pose proof (g_cur _ _ _ _ H) as Hcu. cbn [option_map fst] in Hcu.
   pose proof (g_clock _ _ _ _ H) as Hclk. apply Z.leb_le in Hclk.
@@ -601,21 +602,21 @@ Proof.
 Qed.
 
 (* _call_periodic.run as a whole, entered from a live handle of timer i *)
-Lemma run_timer_inv res cfg fl w m h r i w' evs :
+Lemma run_timer_inv res cfg fl w m h r i w' evs fatal :
   0 < res -> flags_fixed fl ->
   GInv res None w m -> w_ready w = h :: r -> w_canc w (hid h) = false -> htgt h = TRun i ->
-  run_timer fl cfg i (hwhen h) (set_ready w r) = (w', evs) ->
+  run_timer fl cfg i (hwhen h) (set_ready w r) = (w', evs, fatal) ->
   exists m', mon_run false res m evs = Some m' /\ GInv res None w' m'.
 Proof.
   intros Hres Hfl H Er Hc Ht E.
   destruct (tick_start _ _ _ _ _ _ H Er Hc Ht) as (m1 & Hs1 & H1).
-  unfold run_timer in E. destruct Hfl as (Fg & Fc & Fm & Ft & Fr). rewrite Fr in E.
+  unfold run_timer in E. destruct Hfl as (Fg & Fc & Fcb & Fm & Ft & Fr). rewrite Fr in E.
   match type of E with context [do_action cfg ?st ?w0] => destruct (do_action cfg st w0) as [[w1 evs1] raised] eqn:Ea end.
   match type of E with context [epilogue ?a ?b ?c ?st ?e ?f] => destruct (epilogue a b c st e f) as [w2 eve] eqn:Ee end.
   inversion E; subst w' evs; clear E.
   apply (ginv_scr _ _ _ _ (upd (w_scr (set_ready w r)) i (tl (w_scr (set_ready w r) i)))) in H1.
   destruct (action_inv _ _ _ _ _ _ _ _ _ Hres H1 Ea) as (m2 & Hs2 & H2).
-  destruct (epilogue_inv _ _ _ _ _ _ _ _ _ _ _ Hres (conj Fg (conj Fc (conj Fm (conj Ft Fr)))) H2 Ee) as (m3 & Hs3 & H3).
+  destruct (epilogue_inv _ _ _ _ _ _ _ _ _ _ _ Hres (conj Fg (conj Fc (conj Fcb (conj Fm (conj Ft Fr))))) H2 Ee) as (m3 & Hs3 & H3).
   exists m3. split; [|assumption].
   change (eff (set_ready w r) i) with (eff w i). cbn [mon_run]. wsimpl. rewrite Hs1. rewrite mon_run_app, Hs2. assumption.
 Qed.
@@ -706,10 +707,10 @@ Proof.
   - intros x Hx. apply (g_ready _ _ _ _ H). rewrite Er. right. assumption.
 Qed.
 
-Lemma run_handle_inv res cfg fl w m h r w' evs :
+Lemma run_handle_inv res cfg fl w m h r w' evs fatal :
   0 < res -> flags_fixed fl ->
   GInv res None w m -> w_ready w = h :: r ->
-  run_handle fl cfg h (set_ready w r) = (w', evs) ->
+  run_handle fl cfg h (set_ready w r) = (w', evs, fatal) ->
   exists m', mon_run false res m evs = Some m' /\ GInv res None w' m'.
 Proof.
   intros Hres Hfl H Er E. unfold run_handle in E.
@@ -745,12 +746,14 @@ Proof.
   - inversion E; subst. exists m. split; [reflexivity | assumption].
   - destruct (w_ready w) as [|h r] eqn:Er.
     + inversion E; subst. exists m. split; [reflexivity | assumption].
-    + destruct (run_handle fl cfg h (set_ready w r)) as [w1 e1] eqn:E1.
-      destruct (run_ready fl cfg n w1) as [w2 e2] eqn:E2.
-      inversion E; subst w' evs; clear E.
-      destruct (run_handle_inv _ _ _ _ _ _ _ _ _ Hres Hfl H Er E1) as (m1 & Hs1 & H1).
-      destruct (IH _ _ _ _ Hres Hfl H1 E2) as (m2 & Hs2 & H2).
-      exists m2. split; [|assumption]. rewrite mon_run_app, Hs1. assumption.
+    + destruct (run_handle fl cfg h (set_ready w r)) as [[w1 e1] fatal] eqn:E1.
+      destruct (run_handle_inv _ _ _ _ _ _ _ _ _ _ Hres Hfl H Er E1) as (m1 & Hs1 & H1).
+      destruct fatal.
+      * inversion E; subst w' evs; clear E. exists m1. split; assumption.
+      * destruct (run_ready fl cfg n w1) as [w2 e2] eqn:E2.
+        inversion E; subst w' evs; clear E.
+        destruct (IH _ _ _ _ Hres Hfl H1 E2) as (m2 & Hs2 & H2).
+        exists m2. split; [|assumption]. rewrite mon_run_app, Hs1. assumption.
 Qed.
 
 Lemma dispatch_due_inv res cfg fl w m w' evs :
